@@ -105,6 +105,7 @@ def check(ctx):
     load, dump = ctx.used(P.fn(LOAD)), ctx.used(P.fn(DUMP))
     symmetry(ctx, P, load, dump)
     load_rules(ctx, P, load)
+    delta_before_accept(ctx, P, load)
     dump_sources(ctx, P, dump)
     reach(ctx, P, load)
 
@@ -372,3 +373,28 @@ def reach(ctx, P, load):
         ctx.ob("LoadMempool/no-path/%s" % t.split("::", 1)[-1], "CALLGRAPH", "apart from AcceptToMemoryPool no callee of LoadMempool reaches %s (a malformed file cannot remove or "
                "directly insert mempool entries)" % t, ok, load.where, None if ok else {"path": cg.path(seen, t)})
     ctx.extra["reach_size"] = len(seen)
+
+
+# ------------------------------------------------------------------------------------------------
+def delta_before_accept(ctx, P, load):
+    """A saved transaction's fee delta is restored BEFORE the transaction is offered to the mempool (a transaction that is only
+    acceptable thanks to its prioritisation must come back), and whether it is restored does not depend on the acceptance."""
+    pr = sites(load, lambda e: e[0] in ("mcall", "vcall") and e[1] == "CTxMemPool::PrioritiseTransaction", P)
+    at = sites(load, call_to("AcceptToMemoryPool"), P)
+    ctx.floor("LoadMempool AcceptToMemoryPool calls", len(at), 1)
+    inloop = [s for s in pr if s.loops and at and s.loops[0] is at[0].loops[0]] if at and at[0].loops else []
+    ctx.floor("LoadMempool per-transaction PrioritiseTransaction calls", len(inloop), 1)
+    mf = MayFlow(sub_function(load, at[0].loops[0].get("b"), "tx"), P, gens=[("offered", call_to("AcceptToMemoryPool"))])
+    mf.watch = lambda e: e[0] in ("mcall", "vcall") and e[1] == "CTxMemPool::PrioritiseTransaction"
+    mf.run()
+    sub = naming(load, P)
+    for e, state, st in mf.events:
+        site = [s for s in inloop if s.line == st.get("l")]
+        dep = bool(site) and any(("exists(" in k or "AcceptToMemoryPool" in k or "m_result_type" in k) for k in F.atoms(site[0].formula(sub)))
+        ctx.ob("LoadMempool/delta-before-accept@L%s" % st.get("l"), "ORDER", "the saved fee delta of a transaction is applied before AcceptToMemoryPool is called for it and not "
+               "conditionally on the outcome", "offered" not in state and not dep, "%s:%s" % (load.file, st.get("l")))
+    ctx.floor("LoadMempool prioritise events", len(mf.events), 1)
+    a0 = at[0]
+    same = inloop and F.key(F.expand(call_args(inloop[0].expr)[0], sub)).split(".GetHash")[0] in F.key(F.expand(call_args(a0.expr)[1], sub))
+    ctx.ob("LoadMempool/delta-same-tx", "PROVENANCE", "the delta is applied to the hash of the transaction that is then offered", bool(same), load.where,
+           {"prioritised": F.key(F.expand(call_args(inloop[0].expr)[0], sub)) if inloop else None, "offered": F.key(F.expand(call_args(a0.expr)[1], sub))})
